@@ -3,7 +3,7 @@
    (Gen/KMeansGen.v). *)
 From Coupe Require Import Lib.Prelude Lib.SFloat Lib.Rayon Model.KMeansAbs Model.KMeans Gen.KMeansGen
   Proofs.C02Proofs Proofs.KMeansProofs Proofs.KMeansNoPanic Proofs.KMeansF64 Proofs.KMeansSched
-  Proofs.KMeansOrder Proofs.KMeansF64Sum Proofs.KMeansF64Sched.
+  Proofs.KMeansOrder Proofs.KMeansF64Sum Proofs.KMeansF64Sched Proofs.KMeansStatic.
 From Coq Require Import Floats.SpecFloat.
 Local Open Scope nat_scope.
 
@@ -71,6 +71,23 @@ Theorem kmeans_c06_f64_chk : forall lg ex T1 T2 P rot D cfg points weights part 
   kmeans (F64g lg ex) (reds_tree (F64g lg ex) T2 P) rot D cfg points weights part = r.
 Proof.
   intros lg ex. apply kmeans_f64_chk_sched_indep; [exact km_fmax_ok|exact km_fmin_ok].
+Qed.
+
+(* integer-valued inputs with bounded totals (static premise): only the
+   comparisons need the dynamic flag *)
+Theorem kmeans_c06_f64_int_inputs : forall lg ex T0 T1 T2 P rot D cfg points weights part,
+  s_erode cfg = false ->
+  sum_ok_f64 weights = true ->
+  vsum_ok (F64g lg ex) sum_ok_f64 D points = true ->
+  kmeans (F64g lg ex) (reds_chk (F64g lg ex) (fun _ => true) val_ok_f64 cmp_ok_f64 T0 P) rot D cfg points weights part <> Panic 99 ->
+  kmeans (F64g lg ex) (reds_tree (F64g lg ex) T1 P) rot D cfg points weights part =
+  kmeans (F64g lg ex) (reds_tree (F64g lg ex) T2 P) rot D cfg points weights part.
+Proof.
+  intros lg ex T0 T1 T2 P rot D cfg points weights part He Hw Hp H.
+  apply (kmeans_c06_f64 lg ex T0).
+  rewrite <- (kmeans_static_sums (F64g lg ex) sum_ok_f64 val_ok_f64 cmp_ok_f64 sum_ok_f64_sub T0 P rot D cfg He
+                points weights Hw Hp part).
+  exact H.
 Qed.
 
 (* ---- witnesses (binary64, rotation = identity, the doc example of k_means.rs) *)
